@@ -76,6 +76,7 @@ type DADouble struct {
 	ids      map[string][]byte
 	calls    []DACall
 	subScr   []SubmitOutcome
+	defSub   SubmitOutcome // outcome when the script is exhausted ("" = accept)
 	retScr   map[uint64][]RetrieveOutcome
 	getCount map[uint64]int // Get calls since last GetIDs per height
 	lastList uint64
@@ -101,6 +102,30 @@ func (d *DADouble) ScriptSubmit(o ...SubmitOutcome) {
 	d.mu.Lock()
 	d.subScr = append(d.subScr, o...)
 	d.mu.Unlock()
+}
+
+// SetDefaultSubmit sets the outcome of every submission for which nothing is scripted ("" or "accept" = accept):
+// a DA outage of unbounded length, switched on and off by the driver.
+func (d *DADouble) SetDefaultSubmit(kind string) {
+	d.mu.Lock()
+	if kind == "accept" {
+		kind = ""
+	}
+	d.defSub = SubmitOutcome{Kind: kind}
+	d.mu.Unlock()
+}
+
+// SubmitCalls is the number of submissions received so far.
+func (d *DADouble) SubmitCalls() int {
+	d.mu.Lock()
+	defer d.mu.Unlock()
+	n := 0
+	for _, c := range d.calls {
+		if c.Kind == "submit" {
+			n++
+		}
+	}
+	return n
 }
 
 // ClearSubmitScript drops remaining scripted submit outcomes.
@@ -212,6 +237,9 @@ func (d *DADouble) SubmitWithOptions(ctx context.Context, blobs []coreda.Blob, g
 	d.delay("submit")
 	d.mu.Lock()
 	o := SubmitOutcome{Kind: "accept"}
+	if d.defSub.Kind != "" {
+		o = d.defSub
+	}
 	if len(d.subScr) > 0 {
 		o = d.subScr[0]
 		d.subScr = d.subScr[1:]
